@@ -18,5 +18,6 @@ Definition ref_done (g : grammar) (fuel : nat) : bool :=
   build_done fuel g (mkAut (map (fun inp => mkState [] (Some (fst inp)) 0) (g_inputs g)) []) 0.
 
 Definition wf_grammar (g : grammar) : bool :=
+  (0 <=? g_terms g) &&
   forallb (fun r => (g_terms g <=? r_lhs r) && (r_lhs r <? g_terms g + g_nonterms g) &&
                     forallb (fun s => (0 <=? s) && (s <? nsyms g)) (r_rhs r)) (g_rules g).
